@@ -161,6 +161,13 @@ func (t Thing) ShallowCopy() *Thing {
 
 func (t *Thing) useConf() int { return t.conf }
 
+// LOSTSTORE control: the new value is installed in the private copy of the receiver, not in the returned object
+func (t Thing) WithConf(conf int) *Thing {
+	cp := t.ShallowCopy()
+	t.conf = conf
+	return cp
+}
+
 // SHARED control: ShallowCopy shares the map M, which put() stores through
 func (t *Thing) put(k uint64) { t.M[k] = k }
 
